@@ -1,6 +1,7 @@
 """Shared analysis of the PriceLevel mutators (add_order, match_order, update_order):
 path summaries with counter deltas, queue deltas and the other effect events the C01/C02/C03/
 C06/C07/C12/C13/C15 rules look at."""
+import re
 from .effects import make_effect_fn, classify
 from .terms import Affine, affine, prove_zero, short, Int, is_int, subterms
 from .db import AnchorError
@@ -76,9 +77,46 @@ class LevelAnalysis:
         return w
 
     # ---- walking the mutators
+    def mutators(self):
+        """the three documented mutators plus every other crate function that takes the level as its first parameter
+        and, on some path, writes an aggregate counter or pushes/takes an order (a new `cancel_all`, `clear`, ...):
+        discovered from the MIR on every run, analysed by the same rules (keyed by def path)"""
+        if "__mutators__" in self._cache:
+            return self._cache["__mutators__"]
+        out = list(MUTATORS)
+        known = {self.db.method("PriceLevel", n).defp for n in MUTATORS}
+        extra = []
+        for d, b in sorted(self.db.bodies.items()):
+            if b.kind == "Closure" or d in known or b.argc < 1:
+                continue
+            ty = b.locals[1]["ty"].replace("&mut ", "").lstrip("&").strip()
+            ty = re.sub(r"^'[a-z_]+ ", "", ty)
+            if not (ty == self.level_adt["def"] or ty.endswith("::PriceLevel") or ty == "PriceLevel" or ty == "Self" and "PriceLevel" in (b.impl_self or "")):
+                continue
+            try:
+                w = self.walker()
+                res = w.walk(b)
+            except Exception:
+                extra.append(d)
+                continue
+            writes = False
+            for r in res:
+                if any(op != "load" for _, op, _, _ in self.counter_events(r.trace)):
+                    writes = True
+                for e in r.trace:
+                    if e[0] == "eff" and e[1] in ("Q.push", "Q.pop", "Q.remove") and e[2] and self.self_field(e[2][0]) == self.queue_field:
+                        writes = True
+                if writes:
+                    break
+            if writes:
+                self._cache[d] = (b, res, w.stats)
+                extra.append(d)
+        self._cache["__mutators__"] = out + extra
+        return self._cache["__mutators__"]
+
     def paths(self, name):
         if name not in self._cache:
-            b = self.db.method("PriceLevel", name)
+            b = self.db.bodies[name] if "::" in name else self.db.method("PriceLevel", name)
             w = self.walker()
             res = w.walk(b)
             self._cache[name] = (b, res, w.stats)
